@@ -14,6 +14,15 @@
 (*               optionally seeking to an arbitrary next address           *)
 (*  "cue"        cuesheet.py: every call of get_nonempty_entry pops >= 1   *)
 (*               line; a pushed-back line is consumed by the callee        *)
+(*  "trim"       structural.py make_export_name: dropping one trailing dot *)
+(*               and the blanks before it from an export name.  As first   *)
+(*               written this was the regular expression                   *)
+(*               (.+?)\s*\.?\s*$ run by a backtracking matcher: one        *)
+(*               iteration per candidate prefix, each costing one end test *)
+(*               per way of splitting the blanks behind it between the two *)
+(*               \s* (TrimBacktracks = TRUE, D19: cubic in a run of        *)
+(*               blanks); repaired: look at the last character, then strip *)
+(*               blanks backwards                                          *)
 (* (The allocation-table walks are in AllocWalk.tla.)                      *)
 (* Properties: Terminates, and StepBound: the number of iterations never   *)
 (* exceeds a linear function of the input size.                            *)
@@ -21,6 +30,7 @@
 EXTENDS Integers, Sequences, FiniteSets, TLC
 
 CONSTANTS TableScanRealigns,          \* (D6) TRUE: after a failed entry parse the scan continues at the next entry boundary
+          TrimBacktracks,             \* (D19) TRUE: the ending of an export name is trimmed by a backtracking regular expression
           Kind, MaxSize, S, HeadLen   \* S: sector size in units, HeadLen: fixed head of a partition in units
 
 VARIABLES input, pos, steps, pc, pushed
@@ -32,6 +42,7 @@ vars == <<input, pos, steps, pc, pushed>>
 Alphabet == CASE Kind = "partitions" -> 0..3
               [] Kind = "table" -> {"ok", "bad_name", "bad_type", "bad_start", "end"}
               [] Kind = "keygroups" -> 0..MaxSize
+              [] Kind = "trim" -> {"w", " ", "."}
               [] OTHER -> {"FILE", "TRACK", "INDEX", "OTHER", "BLANK"}
 
 Init == input = <<>> /\ pos = 0 /\ steps = 0 /\ pc = "build" /\ pushed = FALSE
@@ -79,7 +90,40 @@ CueStep ==
             ELSE pushed' = FALSE /\ pos' = pos + 1 /\ steps' = steps + 1 /\ UNCHANGED pc
   /\ UNCHANGED input
 
-Next == Build \/ PartStep \/ TableStep \/ KgStep \/ CueStep
+\* trim: the name is stripped (no blank at either end).  pos = length of the candidate prefix / of the result.
+Stripped == input # <<>> /\ input[1] # " " /\ input[Len(input)] # " "
+Blanks(from) == LET ks == {k \in 0..(Len(input) - from + 1) : \A j \in from..(from + k - 1) : input[j] = " "} IN
+                CHOOSE k \in ks : \A m \in ks : m <= k                       \* length of the run of blanks starting at from
+\* end positions the matcher tests for prefix i, in its order: first \s* takes a = run..0 blanks; then with the dot
+\* (if there is one) the second \s* takes m = run'..0 blanks; then without the dot m = (run - a)..0
+RECURSIVE Down(_, _)
+Down(base, m) == IF m < 0 THEN <<>> ELSE <<base + m>> \o Down(base, m - 1)
+RECURSIVE Tests(_, _)
+Tests(i, a) == IF a < 0 THEN <<>>
+               ELSE (IF i + a + 1 <= Len(input) /\ input[i + a + 1] = "." THEN Down(i + a + 1, Blanks(i + a + 2)) ELSE <<>>)
+                    \o Down(i + a, Blanks(i + 1) - a) \o Tests(i, a - 1)
+FirstHit(t) == IF \E k \in 1..Len(t) : t[k] = Len(input)
+               THEN CHOOSE k \in 1..Len(t) : t[k] = Len(input) /\ \A j \in 1..(k - 1) : t[j] # Len(input) ELSE 0
+TrimmedLen == IF Len(input) > 1 /\ input[Len(input)] = "."
+              THEN CHOOSE r \in 1..(Len(input) - 1) : input[r] # " " /\ \A j \in (r + 1)..(Len(input) - 1) : input[j] = " "
+              ELSE Len(input)
+TrimStep ==
+  /\ Kind = "trim" /\ pc = "run"
+  /\ IF ~Stripped THEN pc' = "done" /\ pos' = Len(input) /\ UNCHANGED steps     \* outside the domain (the caller strips first)
+     ELSE IF TrimBacktracks
+     THEN LET i == pos + 1                                                       \* lazy (.+?): try the next longer prefix
+              t == Tests(i, Blanks(i + 1)) IN
+          IF FirstHit(t) # 0 THEN /\ pos' = i /\ steps' = steps + FirstHit(t) /\ pc' = "done"
+          ELSE /\ pos' = i /\ steps' = steps + Len(t) /\ UNCHANGED pc
+     ELSE IF pos = 0                                                             \* look at the last character
+          THEN /\ steps' = steps + 1
+               /\ IF Len(input) > 1 /\ input[Len(input)] = "." THEN pos' = Len(input) - 1 /\ UNCHANGED pc
+                  ELSE pos' = Len(input) /\ pc' = "done"
+          ELSE IF input[pos] = " " THEN pos' = pos - 1 /\ steps' = steps + 1 /\ UNCHANGED pc       \* rstrip, one blank per step
+               ELSE pc' = "done" /\ UNCHANGED <<pos, steps>>
+  /\ UNCHANGED <<input, pushed>>
+
+Next == Build \/ PartStep \/ TableStep \/ KgStep \/ CueStep \/ TrimStep
 Spec == Init /\ [][Next]_vars /\ WF_vars(Next)
 
 Terminates == <>(pc = "done")
@@ -87,4 +131,6 @@ Terminates == <>(pc = "done")
 \* change how the others are read
 Aligned == (Kind = "table" /\ pc = "run") => pos % 24 = 0
 StepBound == steps <= 2 * Len(input) + 1
+\* both ways of trimming give the same name: everything before the blanks before one trailing dot
+TrimResult == (Kind = "trim" /\ pc = "done" /\ Stripped) => pos = TrimmedLen
 =============================================================================
